@@ -45,7 +45,7 @@ pub fn run(args: &Args) -> Report {
         let path: Vec<String> = rp["replay"]["path"].as_array().map(|a| a.iter().filter_map(|x| x.as_str().map(|s| s.to_string())).collect()).unwrap_or_default();
         let k: usize = rp["key"].as_str().and_then(|s| s.rsplit('@').next()).and_then(|s| s.parse().ok()).unwrap_or(0);
         let (weights, faulty, _) = &pl[k.min(pl.len() - 1)];
-        let cfg = l2::L2Cfg { max_view, faulty: *faulty, weights: weights.clone(), max_states: 0, deadline: Instant::now() + Duration::from_secs(600), seed: args.seed, crashes: true, ignore: &["certified_block_displaced", "stale_high_vote_reported"] };
+        let cfg = l2::L2Cfg { max_view, faulty: *faulty, weights: weights.clone(), max_states: 0, deadline: Instant::now() + Duration::from_secs(600), seed: args.seed, crashes: true, forged: false, ignore: &["certified_block_displaced", "stale_high_vote_reported"] };
         match l2::replay(&cfg, &path) {
             Ok(vs) => {
                 for (key, wh) in vs.into_iter().filter(|(k, _)| k != "certified_block_displaced" && k != "stale_high_vote_reported") {
@@ -58,7 +58,7 @@ pub fn run(args: &Args) -> Report {
     }
     let mut rs = vec![];
     for (k, (weights, faulty, name)) in pl.iter().enumerate() {
-        let cfg = l2::L2Cfg { max_view, faulty: *faulty, weights: weights.clone(), max_states: args.tier.pick(300_000, 20_000_000), deadline: Instant::now() + Duration::from_secs(total / pl.len() as u64), seed: args.seed, crashes: true, ignore: &["certified_block_displaced", "stale_high_vote_reported"] };
+        let cfg = l2::L2Cfg { max_view, faulty: *faulty, weights: weights.clone(), max_states: args.tier.pick(300_000, 20_000_000), deadline: Instant::now() + Duration::from_secs(total / pl.len() as u64), seed: args.seed, crashes: true, forged: false, ignore: &["certified_block_displaced", "stale_high_vote_reported"] };
         let (_sys, _t, res) = l2::explore(&cfg, 0);
         for (key, wh, rpl) in &res.violations {
             rep.violations.push(Violation { key: format!("{key}@{k}"), what: format!("{wh}\n  instance: K4 weights {weights:?}, {name}"), replay: rpl.clone() });
